@@ -660,6 +660,8 @@ pub fn configs() -> Vec<Cfg> {
         vec!["utm_source".into(), "utm_medium".into(), "utm_campaign".into(), "utm_term".into(), "utm_content".into()],
         vec!["mk".into()],
         vec![],
+        // a configured name that is not all lower case (e.g. HubSpot's): it is spelled in the request as configured
+        vec!["hsCtaTracking".into(), "mk".into()],
     ];
     let mut v = Vec::new();
     for bits in 0..64u32 {
